@@ -30,6 +30,8 @@ var vkKeyAlphabet = []string{
 	"x\\.y.test", "*.a#b.test", "0.0.0.0 hosts.test", ".", "*.",
 	// a key that ends in a backslash: the final dot the canonical form appends becomes an ESCAPED dot
 	"trail.test\\", "*.wild.test\\",
+	// names the configuration already lists (in memory, not yet in the persisted local list)
+	"cfg.test", "*.cfgw.test",
 	// longer than any domain name can be and than one line the list loader reads (64 KiB)
 	strings.Repeat("a", 70000) + ".test",
 }
@@ -75,18 +77,34 @@ type vkKeyOp struct {
 
 func (o vkKeyOp) String() string { return fmt.Sprintf("%s%q", o.Op, o.Keys) }
 
+// vkKeysCfg: entries that are in memory WITHOUT having come through the API (the configuration's own blocklist; lists
+// downloaded into the directory behave the same): they reach the persisted local list with the first successful API call,
+// which persists a snapshot of the whole in-memory list — also when that call only re-adds one of them.
+var vkKeysCfg = vkList{Plain: []string{"cfg.test."}, Wild: []string{"cfgw.test."}}
+
 func vkKeysRun(base string, hist []vkKeyOp) (viol string, outcome string) {
+	return vkKeysRunCfg(base, hist, vkList{})
+}
+
+func vkKeysRunCfg(base string, hist []vkKeyOp, cfg vkList) (viol string, outcome string) {
 	dir, err := os.MkdirTemp(base, "k")
 	if err != nil {
 		return "harness: " + err.Error(), ""
 	}
 	defer os.RemoveAll(dir)
-	b := vkBuild(vkList{}, dir)
+	b := vkBuild(cfg, dir)
 	var res []string
+	succeeded := false
 	for _, o := range hist {
-		res = append(res, fmt.Sprint(vkApplyReal(b, vkPOp{Op: o.Op, Keys: o.Keys})))
+		r := vkApplyReal(b, vkPOp{Op: o.Op, Keys: o.Keys})
+		succeeded = succeeded || r > 0
+		res = append(res, fmt.Sprint(r))
 	}
 	mem := vkMem(b)
+	if len(cfg.Plain)+len(cfg.Wild) > 0 && !succeeded {
+		// nothing was added or removed through the API: nothing had to be persisted
+		return "", fmt.Sprintf("cfg:no-api-change members=%d", len(mem))
+	}
 	fresh, err := vkLoad(dir, nil)
 	if err != nil {
 		if len(mem) == 0 {
@@ -119,12 +137,17 @@ func TestVerifC18Keys(t *testing.T) {
 	if c.Replay != nil {
 		var r struct {
 			Hist []vkKeyOp `json:"hist"`
+			Cfg  bool      `json:"cfg"`
 		}
 		if json.Unmarshal(c.Replay, &r) != nil {
 			c.HarnessError("bad replay")
 			return
 		}
-		if v, _ := vkKeysRun(base, r.Hist); v != "" {
+		cfg := vkList{}
+		if r.Cfg {
+			cfg = vkKeysCfg
+		}
+		if v, _ := vkKeysRunCfg(base, r.Hist, cfg); v != "" {
 			c.Violation("keys:replay", v, r)
 		}
 		return
@@ -150,6 +173,18 @@ func TestVerifC18Keys(t *testing.T) {
 			v, out := vkKeysRun(base, h)
 			c.Add("evaluations", 1)
 			c.Outcome(out)
+			if v == "" && len(h) <= 2 {
+				// the same history on a list whose configuration already holds two entries
+				if v2, out2 := vkKeysRunCfg(base, h, vkKeysCfg); v2 != "" {
+					if v3, _ := vkKeysRunCfg(base, h, vkKeysCfg); v3 != "" {
+						c.Violation("keys:reload-differs:configured-entries", "with the configured entries "+fmt.Sprint(vkKeysCfg.Plain, vkKeysCfg.Wild)+": "+v2, map[string]any{"hist": h, "cfg": true})
+						return
+					}
+				} else {
+					c.Add("evaluations", 1)
+					c.Outcome(out2)
+				}
+			}
 			if len(h) >= 2 {
 				c.DistinctStr("nontrivial", fmt.Sprint(h))
 			}
